@@ -7,6 +7,7 @@ import (
 	"math/big"
 	"os"
 	"os/exec"
+	"regexp"
 	"strings"
 	"time"
 )
@@ -125,6 +126,18 @@ func (s *Solver) ref(t *Term) string {
 		}
 		return t.Name
 	}
+	if t.Op == "raw" {
+		for _, name := range rawVarRe.FindAllString(t.Name, -1) {
+			if v := LookupVar(name); v != nil {
+				s.ref(v)
+			} else {
+				// unknown variable on this path: make the predicate unsatisfiable-neutral by declaring it fresh
+				fv := Var(SInt, name, nil, nil)
+				s.ref(fv)
+			}
+		}
+		return t.Name
+	}
 	if _, ok := s.emitted[t.ID]; ok {
 		return fmt.Sprintf("t%d", t.ID)
 	}
@@ -145,6 +158,8 @@ func (s *Solver) mark(id int) {
 	s.emitted[id] = s.level
 	s.stack[s.level] = append(s.stack[s.level], id)
 }
+
+var rawVarRe = regexp.MustCompile(`in_[A-Za-z0-9_]+`)
 
 var (
 	ulp53    = new(big.Rat).SetFrac(big.NewInt(1), new(big.Int).Lsh(big.NewInt(1), 53))
